@@ -30,7 +30,7 @@ type c14Case struct {
 
 var c14Triggers = []string{"edit-subject", "touch+outdated", "generate-all", "strip-certificate", "expire", "renew+expired-flag", "regenerate-issuer", "keyalg-to-rsa", "keyalg-to-ec", "strip-hash"}
 
-var c14Decos = []string{"plain", "trailing-blank-line", "trailing-remark", "leading-bag-attributes", "crlf-line-ends", "blank-lines-around"}
+var c14Decos = []string{"plain", "trailing-blank-line", "trailing-remark", "leading-bag-attributes", "crlf-line-ends", "blank-lines-around", "key-then-request-of-the-same-key", "request-of-the-same-key-then-key"}
 
 func c14Decorate(pem []byte, deco int) []byte {
 	switch c14Decos[deco] {
@@ -89,6 +89,9 @@ func c14Enumerate(tier string, yield func(any)) {
 		}
 		// files assembled by hand or exported by other tools carry text around the blocks
 		for deco := 1; deco < len(c14Decos); deco++ {
+			if c.CSR && deco >= 6 {
+				continue // the request variant has no key to put next to it
+			}
 			for _, s := range seqs {
 				// the decoration only matters for the first import: no trigger, edit-subject, generate-all
 				if len(s) > 1 || (len(s) == 1 && s[0] != 0 && s[0] != 2) {
@@ -214,7 +217,14 @@ func c14Exec(x *engine.Ctx, cc any) {
 	if c.CSR {
 		w.Put(ArtifactPath(leaf.Path), c14Decorate(reqPEM, c.Deco))
 	} else {
-		w.Put(ArtifactPath(mid.Path), c14Decorate(keyPEM, c.Deco))
+		content := c14Decorate(keyPEM, c.Deco)
+		switch c14Decos[c.Deco] {
+		case "key-then-request-of-the-same-key":
+			content = append(append([]byte{}, keyPEM...), refx509.EncodePem("CERTIFICATE REQUEST", refx509.BuildCSR(key, "request next to its key", nil))...)
+		case "request-of-the-same-key-then-key":
+			content = append(refx509.EncodePem("CERTIFICATE REQUEST", refx509.BuildCSR(key, "request next to its key", nil)), keyPEM...)
+		}
+		w.Put(ArtifactPath(mid.Path), content)
 	}
 	desc := fmt.Sprintf("origin=%s key=%s layout=%d csr=%v file=%s place=%d", c.Origin, c.KeyFix, c.Layout, c.CSR, c14Decos[c.Deco], c.Place)
 	feat := fmt.Sprintf("origin=%s family=%s", c.Origin, map[bool]string{true: "RSA", false: curveFamily(key.Describe())}[key.RSA != nil])
